@@ -266,3 +266,28 @@ impl LuaIndex for DbIndex {
         self.json_schema_index.clear();
     }
 }
+
+/// Entry counts of every map of every index, in a fixed order (verification hook, add-only, off by
+/// default): lets a checker observe the amount of indexed state without Debug-string heuristics.
+#[cfg(feature = "verif")]
+impl DbIndex {
+    pub fn verif_sizes(&self) -> Vec<(String, usize)> {
+        let mut v = Vec::new();
+        v.extend(self.decl_index.verif_sizes());
+        v.extend(self.references_index.verif_sizes());
+        v.extend(self.types_index.verif_sizes());
+        v.extend(self.modules_index.verif_sizes());
+        v.extend(self.members_index.verif_sizes());
+        v.extend(self.property_index.verif_sizes());
+        v.extend(self.signature_index.verif_sizes());
+        v.extend(self.diagnostic_index.verif_sizes());
+        v.extend(self.operator_index.verif_sizes());
+        v.extend(self.flow_index.verif_sizes());
+        v.extend(self.file_dependencies_index.verif_sizes());
+        v.extend(self.metatable_index.verif_sizes());
+        v.extend(self.global_index.verif_sizes());
+        v.extend(self.json_schema_index.verif_sizes());
+        v.extend(self.vfs.verif_sizes());
+        v
+    }
+}
